@@ -437,7 +437,36 @@ collect:
 	return nil
 }
 
+// genBackPressure: the consumer stalls for longer than the tolerance; the pipeline backs up until the
+// reader is blocked handing over the first byte after a frame; right after that byte the source pauses
+// (two interruptions in a row), then goes on.  Back-pressure from a slow consumer is not silence of the
+// source: nothing may be lost.
+func genBackPressure(t *rapid.T) Case {
+	c := Case{TimeoutMs: 40, WaitMs: uint(rapid.IntRange(0, 1).Draw(t, "waitMs")), BufSize: rapid.SampledFrom([]int{16, 4096}).Draw(t, "bufSize"),
+		Terminal: "silence", MsgCap: rapid.IntRange(0, 1).Draw(t, "msgCap"), SysLog: rapid.Bool().Draw(t, "sysLog"), PreludeTolMs: 40}
+	n := rapid.IntRange(5, 7).Draw(t, "nFrames")
+	var ends []int
+	off := 0
+	for i := 0; i < n; i++ {
+		f := gen.ValidFrame(t, 30)
+		c.Stream.Segs = append(c.Stream.Segs, gen.Segment{Kind: "valid", Data: f})
+		off += len(f)
+		ends = append(ends, off)
+	}
+	c.StallAt = rapid.IntRange(0, 2).Draw(t, "stallAt")
+	c.StallMs = int(c.TimeoutMs) + 40
+	// the handler blocks delivering message StallAt+MsgCap; the reader then blocks on the byte after it
+	blocked := c.StallAt + c.MsgCap
+	cut := ends[blocked] + 1 + rapid.IntRange(0, 1).Draw(t, "extraBytes")
+	kind := rapid.SampledFrom([]string{"eof", "timeout"}).Draw(t, "kind")
+	c.Steps = []Step{{Data: cut, Faults: 2, Kind: kind}, {Data: off - cut}}
+	return c
+}
+
 func gen1(t *rapid.T) Case {
+	if rapid.IntRange(0, 7).Draw(t, "backPressure") == 5 {
+		return genBackPressure(t)
+	}
 	c := Case{Stream: gen.CleanStream(t, 6, 40, true)}
 	input := c.Stream.Bytes()
 	c.TimeoutMs = 40
